@@ -12,13 +12,16 @@ CHECKS = {
               "padding layout, numbering) the model of close_face_nodes/_build_edge_node_connectivity/_build_face_edge_connectivity/"
               "_build_n_nodes_per_face satisfies the decidable specification Edges.Spec (each boundary segment exactly once, no "
               "padding, face_edge[f,j] joins corners j,j+1, padding exactly where there is no corner, n_nodes_per_face). The model is "
-              "tied to the code by a differential run on generated meshes (identical outputs up to edge numbering), and the same Lean "
+              "tied to the code by a differential run on generated meshes (identical outputs entry for entry, including the edge numbering, on built grids; up to edge numbering on derived grids), and the same Lean "
               "predicate is evaluated on the implementation's own output. handshake / handshake_closed: the (face, slot) incidences summed over the derived edges equal the sum of n_nodes_per_face, and 2*n_edge = that sum when every edge bounds two face slots. "
               "spec_unique: any output meeting Spec equals the model's up to the numbering of the edges (justifies the canonicalised comparison). "
+              "edges_sorted / edges_strictly_increasing / uniqPair_eq_of_sorted: np.unique(axis=0) is modelled as sort + dedup and the model numbers the edges in the lexicographic order of their sorted pairs; spec_sorted_unique: an output meeting Spec whose edges are sorted pairs in that order IS the model's output, so a different numbering is reported as correspondence mismatch C02/edge-numbering/... while the Spec verdict stands. "
+              "face_lists_each_edge_once / edge_fed_each_face_once / edge_faces_distinct: on EVERY standard-form table whose faces have pairwise distinct corners, at least three (SimpleFaces), in ANY output meeting Spec no face-edge row repeats an edge, hence C03's edge-face loop never writes a face twice into an edge's row (no manifold hypothesis; both hypotheses shown necessary). "
+              "nPerFace_ok_any / edges_complete_any / edges_once_any: three of the five clauses hold of the model on EVERY table; asis_midfill_unsound / asis_leadfill_faceEdges: the other two need the standard form. The builders validate nothing; a malformed-input stream (fill inside/at the start of a row, empty rows, out-of-range/negative indices) compares code and model entry for entry (all identical) and is reported without verdict. Degenerate standard-form faces (repeated corner, 1-2 corners) are generated. "
               "The same verdict is asked of grids DERIVED from the generated ones (random reads on the parent first, then 1-2 isel(n_face=...) selections "
               "in any order and shape - non-adjacent, notched, single - and copy()): Edges.Spec on the derived grid's own face table. "
               "Euler's formula itself (topology of the sphere) is tested on generated sphere tilings only."),
-        note=_TB + "Modelled, not verified: NumPy's np.unique/argmax/searchsorted/reshape semantics, xarray storage; Euler count.",
+        note=_TB + "Modelled, not verified: that NumPy's np.unique(axis=0) is sort + dedup in lexicographic row order and NumPy's argmax/np.put/searchsorted/reshape semantics (the model's side is proved: edges_sorted, uniqPair_eq_of_sorted, filter_index; NumPy's side is tied by the differential run with identical tables, also on non-standard tables), xarray storage; Euler count.",
         technique="Lean 4 theorem over a hand model + differential correspondence with Lean-evaluated spec",
     ),
 }
@@ -111,8 +114,8 @@ CHECKS["C06"] = dict(
           "compute_face_areas(rule, order) call and the observed output EXACTLY to rationals and evaluates Spec (dims, shape, name, "
           "grid identity, each value within n_face·2^-52·Σ|terms| of the exact sum, rejection). The snapshot's size-based dispatch has "
           "the proved counterexample asis_integrates_node_data (tetrahedron) and was repaired by fix 34c6c352; the deprecated "
-          "UxDataset.integrate is a known finding (no dispatch, 1-D only)."),
-    note=_TB + "Modelled, not verified: IEEE rounding of np.einsum (bounded by the property's tolerance), xarray's constructor; face "
+          "UxDataset.integrate is a known finding (no dispatch, 1-D only). rounded_err bounds the error of ANY summation tree by ((1+u)^(depth+1)-1)*Sum|terms| and close_of_rounded shows that tolerance is met by every summation order, so a `values` verdict cannot be a rounding artefact."),
+    note=_TB + "The float tolerance is a theorem (close_of_rounded / spec_values_of_rounded): every bracketing of every permutation of the terms, evaluated in the standard model of binary64 arithmetic (relative error <= 2^-53 per product and addition, FMA included), lies within n_face*2^-52*Sum|terms| for n_face <= 2^53. Assumed, not proved: that np.einsum/np.dot obey that standard model (no underflow/overflow, no reduced-precision accumulation); xarray's constructor; face "
          "areas are inputs (C05). Values are differential tests, the algebraic laws and the decision table are theorems. The element "
          "dimension is the last one; arrays with a non-grid last dimension are not judged.",
     technique="Lean 4 theorems over a semiring-generic model + differential correspondence with Lean-evaluated spec at exact rationals",
@@ -165,7 +168,7 @@ CHECKS["C11"] = dict(
           "(stable sort + take k / filter d<=r) satisfies the k-nearest and radius specifications (knn_meets_spec, "
           "radius_meets_spec: right length, valid distinct indices, nearest first, every non-returned element at least as far); "
           "the Boolean the driver evaluates on the IMPLEMENTATION's output is that specification (knnSpecB_iff, radiusSpecB_iff) "
-          "and, ties aside, it has exactly one solution (knn_unique). Over R: chord = 2 sin(theta/2) strictly increasing on [0,pi] "
+          "; ties aside it has exactly one solution (knn_unique), and under arbitrary ties it accepts EXACTLY the valid k-nearest answers - same distance as brute force at every position (knn_ties_profile, knn_spec_of_profile); up to a tolerance eps an accepted answer has the brute-force distance profile up to eps at every position (knn_tol_profile; radius_tol_sandwich for radius queries). Over R: chord = 2 sin(theta/2) strictly increasing on [0,pi] "
           "(chord_mono), Cartesian distance of two (lat,lon) points = 2 sin(haversine/2), haversine = arccos(u.v) in [0,pi] "
           "(chord_eq_chord_of_hav, haversine_eq_angle), hence Cartesian trees rank exactly like the haversine tree "
           "(cartesian_knn_eq_haversine_knn); units: unit_roundtrip, planar_degrees, doc_* (flip/deg->rad for every tree/system/"
@@ -177,7 +180,7 @@ CHECKS["C11"] = dict(
           "ordered pairs + sampled longer histories of differently parameterised requests, and all A,B,A / A,B,C,A element-kind "
           "switches per (tree, system, metric) without reconstruct, with a Lean-judged k-NN and radius query after EVERY request); the Lean driver computes the model "
           "distances at Float and judges the implementation's indices with the decidable spec; reported distances are a float "
-          "clause (rel. tol 1e-7); near-ties (<1e-9) are dropped and counted."),
+          "clause (rel. tol 1e-7); rows with near-ties (<1e-9) are judged by the same specification up to 1e-9 (the criterion of knn_tol_profile / radius_tol_sandwich), not dropped; only a haversine near-tie within 1e-6 of the antipode that fails it would be dropped and counted."),
     note=_TB + "Modelled, not verified: sklearn BallTree/KDTree (assumed = brute force, validated per case), IEEE/libm "
          "evaluation of the metrics, NumPy squeeze/shape rules (canonicalised, not judged); element coordinates are taken as "
          "the grid reports them (C04).",
@@ -223,11 +226,11 @@ CHECKS["C14"] = dict(
           "the exact value of the returned doubles. The snapshot's lon/lat logic of point_within_gca failed on pole-related arcs "
           "(repaired by fix 87607001; as-is witnesses kept). Known findings: crossings missed when the candidate's plane residual "
           "exceeds MACHINE_EPSILON (~0.7%), exact on-arc points rejected by the same plane tolerance (~1e-5), end point within 1.41e-4 rad of a "
-          "pole snapped in extreme_gca_latitude."),
+          "pole snapped in extreme_gca_latitude. Purity: session_state_const / session_answers / runWith_pure (in EVERY sequence of calls on one arc object every answer is the answer on the original values, for any step that hands its state back unchanged and answers from the values) with onArc_congr / intersections_congr / extreme_congr. The bytes of every ndarray argument of every call are compared before/after the call (signature C14/<primitive>/modifies-input/arg=k), and 2-4 primitives are run in random order on ONE arc object (88% with an interior extreme; (2,3) array, list of arrays, Fortran order, row/column-strided views of a node array, list of row views), each answer required to equal the answer on a fresh object with the original values (C14/<primitive>/answer-depends-on-call-history)."),
     note=_TB + "Modelled, not verified: IEEE evaluation inside the three functions (only tested, on inputs >=1e-6 rad from every decision "
          "boundary); latitude VALUE compared at ERROR_TOLERANCE / 4 ulp of sin(lat) (float clause, test level); the same-great-circle "
          "branch of gca_gca_intersection and directed arcs are outside the property. Regenerated ERROR_TOLERANCE/MACHINE_EPSILON are "
-         "re-proved to lie far inside the margin each run (library_tolerances_below_margin).",
+         "re-proved to lie far inside the margin each run (library_tolerances_below_margin). That the implementation behaves like a function of the values (no aliasing or in-place update of caller arrays) is test level: byte comparison plus shared-object call sequences; float32 arguments are only noted.",
     technique="Lean 4 theorems over an exact ordered-field model (executed at Q as the oracle) + differential correspondence with Lean-evaluated verdicts",
 )
 
@@ -242,21 +245,21 @@ CHECKS["C04"] = dict(
           "deg_range over Q. Angles carry Deg/Rad types; the snapshot's algorithm is refuted by proved witnesses (asis_*; repaired by "
           "fixes bd9a8bfc, dae7aac7, 72e92fe3). Tie: the same generic definitions run at Float in the driver against the real Grid on "
           "generated sources x histories (1e-12 on directions; all 6! access orders in thorough) and the Lean Bool spec (proved to decide "
-          "the Prop at tolerance 0) judges the implementation's reports, also on SCRIP/Exodus/GEOS-CS/MPAS/UGRID sample files."),
+          "the Prop at tolerance 0) judges the implementation's reports, also on SCRIP/Exodus/GEOS-CS/MPAS/UGRID sample files. Round trip with the code's convention on the FULL domain (lonlat_of_xyz_of_lonlat: any real longitude, lat in [-90,90] -> (wrap180 lon, lat) outside the snap cap, (0, +-90) inside; wrap180_seam: +180 is reported as -180) and exactly which inputs snap (snap_branch_iff, snap_cap_iff_lat: |lat| within arccos(1-tol) of a pole)."),
     note=_TB + "Modelled, not verified: IEEE rounding, libm vs NumPy (compared at 1e-12), xarray storage, that readers deliver "
          "consistent sources; positions within 1e-10 of the snap threshold are dropped; normalize_cartesian_coordinates() is judged on "
-         "directions only (its node-only _check_normalization leaves stored centre vectors un-normalised: recorded as a note).",
+         "directions only (its node-only _check_normalization leaves stored centre vectors un-normalised: recorded as a note). Model and implementation lon/lat reports are additionally compared number by number (informational counter, no verdict: the property fixes direction and range, not the representative).",
     technique="Lean 4 theorem over a hand model (provenance state machine, induction over histories) + differential correspondence with Lean-evaluated spec",
 )
 
 CHECKS["C09"] = dict(
-    text=("Lean theorems (UxVerif.C09, 133 obligations) about the model of _slice_face_indices: "
+    text=("Lean theorems (UxVerif.C09, 137 obligations) about the model of _slice_face_indices: "
           "slice_meets_spec — for EVERY source whose own edge tables meet C02's spec and EVERY valid duplicate-free face-index list the "
           "subset records exactly the request, every subset face has the corners of its source face in the same order (read through the "
           "recorded node indices), its nodes/edges are exactly those of the selected faces, and its re-indexed edge tables satisfy C02's "
           "Edges.Spec OF THE SUBSET (slice_functional); slice_eq_fresh — they equal a from-scratch edge construction on the subset; "
           "slice_history_independent / built_grid_end_to_end — for every history of requests on the source before slicing and every order of "
-          "requests afterwards nothing raises and the same tables are reported (state machine over the variables/attributes that travel); efd_transport / efd_history_independent_of_pre — the source's edge_face_distances kept where both faces were selected and renumbered EQUAL what the subset derives from its own table, proved from C03's EdgeFaceOK on both grids plus DistinctFaces (no per-case model equation left); "
+          "requests afterwards nothing raises and the same tables are reported (state machine over the variables/attributes that travel); efd_transport / efd_history_independent_of_pre — the source's edge_face_distances kept where both faces were selected and renumbered EQUAL what the subset derives from its own table, proved from C03's EdgeFaceOK on both grids plus DistinctFaces (no per-case model equation left); Props/C09x (extension module, audited with C09): slice_simple / distinctFaces_of_simple / distinctFaces_slice_of_simple / efd_history_independent_of_simple discharge both DistinctFaces hypotheses from C02's edge_faces_distinct when the faces are simple (pairwise distinct corners, at least three); "
           "nodes_inclusive/edges_inclusive/slice_nodes_meets_spec — node and edge selections are inclusive; data_aligned_rank — sliced data are "
           "the source's at the recorded indices for any rank; crosssec_iff + mask_order_irrelevant — a face is selected iff one of its edges "
           "has end nodes strictly on opposite sides of the parallel, for any iteration order of the parallel loop; box_iff/inLon_iff/circle_iff/"
@@ -331,11 +334,11 @@ CHECKS["C05"] = dict(
           "equals Grid.compute_face_areas/face_areas/calculate_total_face_area to rel 1e-11 for every rule, order and both inputs; tables are "
           "bit-identical to the live ones. TESTED, not proved (oracle: exact spherical excess in the Lean driver, faces re-checked by the Lean "
           "predicate wfFace): accuracy 1e-6/1e-4/1e-2 at <=10/30/65 deg with the default rule, convergence with order, sum = 4*pi, rotation/"
-          "renumbering/start-corner/subdivision at Float."),
+          "renumbering/start-corner/subdivision at Float. Part J: the integrand both Jacobian routines evaluate is proved (over R, any corners, any parameter point with F != 0) to be the area element |dP/da x dP/db| of the code's parametrisation P = F/|F| (bary_area_element, gauss_area_element, via normalize_hasDerivAt and the exact partial derivatives baryF_partial_*/gaussF_partial_*), with closed forms jacCore_eq_triple = |F.(AxB)|/|F|^3, jacBary_closed = |n1.(n2xn3)|/(2|F|^3), jacGauss_closed = |1-b||n1.(n2xn3)|/|F|^3 - so the table theorems are about quadrature of the true solid-angle density."),
     note=_TB + "Modelled, not verified: IEEE rounding, libm sin/cos/sqrt/atan2, numba JIT, np.sum; the flip identity of exact spherical area is a "
          "hypothesis of fan_shift. The snapshot's compute_face_areas(latlon=False) dropped z (Lean: asis_cartesian_area_zero, "
          "asis_violates_input_independence); repaired by fix afa9bf59. float32 coordinates raise a numba TypingError (outside the quantifier, "
-         "reported only).",
+         "reported only). The step from the area element to the area integral (change of variables) and the quadrature error of the non-polynomial density 1/|F|^3 are not proved; the accuracy thresholds stay tests.",
     technique="Lean 4: regenerated-table theorems (decide +kernel) + theorems over a hand model + differential correspondence with a Lean-evaluated Float spec",
 )
 
@@ -351,11 +354,11 @@ CHECKS["C13"] = dict(
           "fixes 1bade8c0, 55464bc2), asis_pole_missed, asis_false_pole (known findings). Tie: Grid.bounds vs the Lean transcription run at Float on "
           "generated convex 3..8-gons (anywhere, poleward-bulging edges, prime/anti-meridian, corner at a pole, pole enclosed, either start), "
           "and the verdict on the implementation's box is a Lean-evaluated oracle independent of the helpers (64 samples per edge + analytic "
-          "apex, orientation determinants for the pole, largest-gap longitude hull; 1e-9 rad), plus a directed stream of faces across lon 0 / +-180 listed from every start corner in both orientations."),
+          "apex, orientation determinants for the pole, largest-gap longitude hull; 1e-9 rad), plus a directed stream of faces across lon 0 / +-180 listed from every start corner in both orientations. The FORM of the coordinate input is a random dimension of every case: dtype float64/float32/int64/int32/Python ints (integer forms on whole-degree lattice faces), construction through from_topology, open_grid(vertices, latlon=True), open_grid(xyz, radius 1/6371/0.25) and from_dataset, longitudes in [-180,180) or [0,360), with or without normalize_cartesian_coordinates(); the Lean oracle judges against the positions exactly as supplied (float32: 2e-5 rad). This dimension exposed a further defect repaired by fix e9d23560 (bounds computed from non-unit / float32 node vectors)."),
     note=_TB + "Only tested (not proved): that the parity flag of _pole_point_inside_polygon agrees with 'pole strictly inside' (it does not: "
-         "2 known findings), that the corner longitudes span the boundary's longitudes (monotonicity of longitude along a pole-free arc; used by the oracle's largest-gap hull), "
+         "see the known findings), that the corner longitudes span the boundary's longitudes (monotonicity of longitude along a pole-free arc; used by the oracle's largest-gap hull), "
          "attainment for pole faces, IEEE rounding, the ERROR_TOLERANCE clip/pole snap, np.mod/deg2rad, gca_gca_intersection/point_within_gca "
-         "(idealised in the model, C14). Corners within 0.06 deg of a pole (not on it) and poles within 1e-6 of the boundary are not generated.",
+         "(idealised in the model, C14). Corners within 0.06 deg of a pole (not on it) and poles within 1e-6 of the boundary are not generated. dtype promotion / conversion of the supplied coordinates (np.deg2rad of integer or float32 arrays, the float64 per-edge tables, normalisation of non-unit xyz) is only exercised by the form dimension, not modelled - the model is over a field. For faces with a corner exactly on longitude 0 the model/implementation comparison is skipped (end-point rounding of point_within_gca, C14); the oracle verdict is still applied. A numba TypingError for a coordinate dtype is noted, not judged (C08). Known findings: 4 (two pole-parity classes, corner on lon 0 => false pole, float32 pole corner).",
     technique="Lean 4 theorems (field/real algebra, induction over edge lists) over a hand model + differential correspondence with a Lean-evaluated sampling oracle",
 )
 
